@@ -125,19 +125,7 @@ def generate(prop, rng, tier):
 LAYOUTS = ['C'] * 5 + ['F', 'strided', 'strided']
 
 
-def _relayout(x, lay):
-    """Same element, same values, wrapping an array of another memory layout
-    (inside guard zones, see core.guarded_layout)."""
-    if lay == 'C' or not SP.is_elem(x):
-        return x
-    o = R.odl()
-    sp = x.space
-    if isinstance(sp, o.ProductSpace):
-        return sp.element([_relayout(p, lay) for p in x.parts])
-    arrs = elem_arrays(x)
-    if len(arrs) != 1 or arrs[0].ndim == 0 or arrs[0].size == 0:
-        return x
-    return sp.element(guarded_layout(arrs[0], lay))
+_relayout = SP.relayout
 
 
 def simplify(prop, plan):
